@@ -392,6 +392,88 @@ def translate_bool_fn(fn, param_kind):
     return v[1]
 
 
+def load_record(name):
+    p = subprocess.run(["clang++-14", "-std=gnu++17", "-x", "c++", "-fsyntax-only", "-I" + REPO, "-Xclang", "-ast-dump=json",
+                        "-Xclang", "-ast-dump-filter=" + name, os.path.join(REPO, "util", "utf8.hh")],
+                       stdout=subprocess.PIPE, stderr=subprocess.PIPE)
+    txt = p.stdout.decode()
+    dec, i, objs = json.JSONDecoder(), 0, []
+    while i < len(txt):
+        while i < len(txt) and txt[i] in " \n\r\t":
+            i += 1
+        if i >= len(txt):
+            break
+        o, i = dec.raw_decode(txt, i)
+        objs.append(o)
+    recs = [o for o in objs if o.get("kind") == "CXXRecordDecl" and o.get("name") == name and o.get("inner")]
+    if len(recs) != 1:
+        raise Untranslatable(f"expected one definition of class {name}")
+    return recs[0]
+
+
+def member_call(n):
+    """(method, object member) of a call like remaining_.begin(), looking through implicit casts"""
+    while n.get("kind") in ("ImplicitCastExpr", "ParenExpr", "MaterializeTemporaryExpr", "ExprWithCleanups", "CXXBindTemporaryExpr"):
+        n = n["inner"][0]
+    if n.get("kind") != "CXXMemberCallExpr":
+        return None
+    m = n["inner"][0]
+    if m.get("kind") != "MemberExpr":
+        return None
+    obj = m["inner"][0]
+    while obj.get("kind") in ("ImplicitCastExpr", "ParenExpr"):
+        obj = obj["inner"][0]
+    if obj.get("kind") != "MemberExpr" or obj["inner"][0].get("kind") != "CXXThisExpr":
+        return None
+    return (m.get("name"), obj.get("name"), len(n["inner"]) - 1)
+
+
+def check_iterator():
+    """DecodeUTF8Iterator::operator++ is modelled by hand (PV.Utf8.decodeAllFuel: decode the WHOLE remaining text, drop mblen bytes).
+    The translator verifies the three facts that model rests on: the prefix removed is current_.size(); DecodeUTF8 is handed exactly
+    [remaining_.begin(), remaining_.end()); the new current_ is StringPiece(remaining_.data(), length)."""
+    rec = load_record("DecodeUTF8Iterator")
+    ops = [m for m in rec["inner"] if m.get("kind") == "CXXMethodDecl" and m.get("name") == "operator++"
+           and not any(c.get("kind") == "ParmVarDecl" for c in m.get("inner", [])) and any(c.get("kind") == "CompoundStmt" for c in m.get("inner", []))]
+    if len(ops) != 1:
+        raise Untranslatable("DecodeUTF8Iterator::operator++() not found")
+    body = [c for c in ops[0]["inner"] if c["kind"] == "CompoundStmt"][0]["inner"]
+    first = body[0]
+    ok = first.get("kind") == "CXXMemberCallExpr" and member_call(first) == ("remove_prefix", "remaining_", 1) and member_call(first["inner"][1]) == ("size", "current_", 0)
+    if not ok:
+        raise Untranslatable("operator++ no longer starts with remaining_.remove_prefix(current_.size())")
+    calls = []
+
+    def walk(n):
+        if n.get("kind") == "CallExpr":
+            callee = n["inner"][0]
+            while callee.get("kind") in ("ImplicitCastExpr", "ParenExpr"):
+                callee = callee["inner"][0]
+            if callee.get("referencedDecl", {}).get("name") == "DecodeUTF8":
+                calls.append(n)
+        for c in n.get("inner", []):
+            walk(c)
+    for st in body:
+        walk(st)
+    if len(calls) != 1:
+        raise Untranslatable("operator++ does not call DecodeUTF8 exactly once")
+    a = calls[0]["inner"][1:]
+    if len(a) != 3 or member_call(a[0]) != ("begin", "remaining_", 0) or member_call(a[1]) != ("end", "remaining_", 0):
+        raise Untranslatable("operator++ no longer hands exactly [remaining_.begin(), remaining_.end()) to DecodeUTF8")
+    temps = []
+
+    def walk2(n):
+        if n.get("kind") == "CXXTemporaryObjectExpr" and "StringPiece" in (n.get("type") or {}).get("qualType", ""):
+            temps.append(n)
+        for c in n.get("inner", []):
+            walk2(c)
+    for st in body:
+        walk2(st)
+    good = [t for t in temps if len(t.get("inner", [])) == 2 and member_call(t["inner"][0]) == ("data", "remaining_", 0)]
+    if not good:
+        raise Untranslatable("operator++ no longer sets current_ = StringPiece(remaining_.data(), length)")
+
+
 def generate():
     """returns (changed, error).  On error the previous generated file is left in place (the shared model driver still has to
     build for the other properties) and the caller reports a broken obligation for the properties that rest on the decoder."""
@@ -399,11 +481,14 @@ def generate():
         trail = translate_bool_fn(load_ast("IsTrailByte"), ("SC", "b"))
         valid = translate_bool_fn(load_ast("IsValidCodepoint"), ("U", "c", 32))
         dec = translate_decode(load_ast("DecodeUTF8"))
+        check_iterator()
     except Untranslatable as e:
         return False, f"util/utf8.hh is outside the translator's subset, PV/Gen/Utf8.lean could not be regenerated: {e}"
     text = f"""/- GENERATED by tools/gen_utf8.py from {REPO if REPO == '/repo' else '/repo'}/util/utf8.hh (clang AST).  Do not edit.
    IsTrailByte / IsValidCodepoint / DecodeUTF8 as the source has them now; bytes are their unsigned values, the C integer
-   conversions have been resolved by the translator (see its header for the rules and side conditions). -/
+   conversions have been resolved by the translator (see its header for the rules and side conditions).
+   DecodeUTF8Iterator::operator++ was checked to remove current_.size() bytes, to hand [remaining_.begin(), remaining_.end()) to
+   DecodeUTF8 and to set current_ = StringPiece(remaining_.data(), length): the shape PV.Utf8.decodeAllFuel is written for. -/
 namespace PV.Utf8
 
 /-- `IsTrailByte(char x)` on the unsigned value of the byte -/
